@@ -37,7 +37,7 @@ class Scope:
 class Gen:
     def __init__(self, rnd, opts=None):
         self.r = rnd
-        self.o = dict(err=0.06, max_depth=3, classes=False, exceptions=True, closures=True, lists=True, loops=True)
+        self.o = dict(err=0.025, max_depth=3, classes=False, exceptions=True, closures=True, lists=True, loops=True)
         self.o.update(opts or {})
         self.n = 0
         self.scope = Scope()
@@ -226,7 +226,6 @@ class Gen:
         name = name or self.fresh("f")
         ar = r.randint(0, 3) if arity is None else arity
         params = [self.fresh("p") for _ in range(ar)]
-        self.scope.vars[name] = f"fn{ar}"
         self.push(True)
         for p in params:
             self.scope.vars[p] = "num"
@@ -237,6 +236,7 @@ class Gen:
             body.append(Return(self.expr("num", 2)))
         self.loop_depth, self.fn_depth = saved
         self.pop()
+        self.scope.vars[name] = f"fn{ar}"      # registered after the body: generated functions never recurse
         return [Fn(name, params, Block(body), kind)]
 
     def try_stmt(self, depth):
@@ -309,3 +309,467 @@ def program_c01(rnd, position=None, opts=None):
     else:
         use = ExprSt(Call(Var("Host"), args))
     return Module(pre + [cls, use]), position
+
+
+# ======================================================================================================
+# C02: scoping and closures
+def program_c02(rnd):
+    n = [0]
+
+    def fresh(p):
+        n[0] += 1
+        return f"{p}{n[0]}"
+
+    mod = [Let("cl", List([]))]
+    modvars = []
+    if rnd.random() < 0.7:
+        mv = fresh("g")
+        mod.append(Let(mv, Num(rnd.choice([0, 5]))))
+        modvars.append(mv)
+
+    def closure_over(vars_visible, tag):
+        """a closure that prints and/or mutates a random subset of the visible variables"""
+        vs = [v for v in vars_visible if rnd.random() < 0.6] or vars_visible[:1]
+        body = []
+        own = []
+        if rnd.random() < 0.4:
+            # the closure has a local of its own that a deeper closure captures
+            o = fresh("o")
+            own.append(o)
+            body.append(Let(o, Num(rnd.choice([0, 4]))))
+            body.append(Let(fresh("h"), Lambda([], Var(o))))
+        for v in vs + own:
+            if rnd.random() < 0.5:
+                body.append(ExprSt(Assign(v, Bin("+", Var(v), Num(rnd.choice([1, 10]))))))
+        if own and vs:
+            body.append(ExprSt(Assign(own[0], Bin("+", Var(own[0]), Num(3)))))
+            body.append(ExprSt(Var(vs[0])))
+            body.append(ExprSt(Assign(vs[0], Bin("+", Var(vs[0]), Num(5)))))
+            body.append(ExprSt(Var(own[0])))
+        body.append(Print(Str(tag), *[Var(v) for v in vs + own]))
+        if rnd.random() < 0.5:
+            return Lambda([], Block(body))
+        p = fresh("q")
+        body.insert(0, ExprSt(Assign(vs[0], Bin("+", Var(vs[0]), Var(p)))))
+        return Lambda([p], Block(body))
+
+    def push_closure(vars_visible, tag):
+        return ExprSt(Invoke(Var("cl"), "push", [closure_over(vars_visible, tag)]))
+
+    def level(depth, visible, kind):
+        """statements of a function body at nesting `depth`"""
+        body = []
+        mine = []
+        for _ in range(rnd.randint(1, 2)):
+            v = fresh("a")
+            body.append(Let(v, Num(rnd.choice([1, 2, 3]))))
+            mine.append(v)
+        vis = visible + mine
+        for _ in range(rnd.randint(1, 3)):
+            c = rnd.random()
+            if c < 0.35:
+                body.append(push_closure(vis, f"c{depth}"))
+            elif c < 0.42:
+                v = rnd.choice(vis)
+                body.append(ExprSt(Assign(v, Bin("+", Var(v), Num(100)))))
+            elif c < 0.50:
+                # store to one variable directly followed by a read of another (own/outer in any combination)
+                v1, v2 = rnd.choice(vis), rnd.choice(vis)
+                body.append(ExprSt(Assign(v1, Bin("+", Var(v1), Num(1)))))
+                body.append(rnd.choice([ExprSt(Assign(v2, Bin("+", Var(v2), Num(2)))), ExprSt(Var(v2)), Let(fresh("z"), Var(v2))]))
+                body.append(Print(Str("adj"), Var(v1), Var(v2)))
+            elif c < 0.65:
+                i = fresh("i")
+                j = fresh("j")
+                inner = [Let(j, Bin("*", Var(i), Num(10))), push_closure(vis + [i, j], f"L{depth}")]
+                if rnd.random() < 0.3:
+                    inner.append(ExprSt(Assign(j, Bin("+", Var(j), Num(1)))))
+                body.append(For(i, Invoke(Num(rnd.randint(1, 3)), "times", []), Block(inner)))
+            elif c < 0.75:
+                w = fresh("w")
+                k = fresh("k")
+                inner = [ExprSt(Assign(w, Bin("+", Var(w), Num(1)))), Let(k, Bin("+", Var(w), Num(50))), push_closure(vis + [k], f"W{depth}")]
+                body.append(Let(w, Num(0)))
+                body.append(While(Bin("<", Var(w), Num(2)), Block(inner)))
+            elif c < 0.85:
+                e = fresh("e")
+                m = fresh("m")
+                body.append(Try(Block([Raise(Call(Var("Error"), [Str("boom" + str(depth))]))]),
+                                [Catch(e, "Error", Block([Let(m, Prop(Var(e), "message")), push_closure(vis + [m], f"E{depth}"),
+                                                           ExprSt(Invoke(Var("cl"), "push", [Lambda([], Block([Print(Prop(Var(e), "message"))]))]))]))]))
+            elif depth < 3:
+                f = fresh("f")
+                p = fresh("p")
+                inner = level(depth + 1, vis + [p], "fn")
+                body.append(Fn(f, [p], Block(inner)))
+                for _ in range(rnd.randint(1, 2)):
+                    body.append(ExprSt(Call(Var(f), [Num(rnd.choice([1, 2, 7]))])))
+            else:
+                body.append(push_closure(vis, f"d{depth}"))
+        body.append(Print(Str(f"end{depth}"), *[Var(v) for v in vis]))
+        return body
+
+    top = fresh("f")
+    tp = fresh("p")
+    use_class = rnd.random() < 0.3
+    if use_class:
+        # a method capturing self and its parameter
+        fld = "n"
+        mbody = [ExprSt(Invoke(Var("cl"), "push", [Lambda([], Block([ExprSt(PropOp(Self(), fld, "+=", Var(tp))), Print(Str("self"), Prop(Self(), fld), Var(tp))]))]))] + \
+            level(1, modvars + [tp], "method")
+        mod.append(Class("K", None, [Fn("init", [], Block([ExprSt(PropSet(Self(), fld, Num(0)))]), "init"),
+                                     Fn("go", [tp], Block(mbody), "method")]))
+        mod.append(Let("k", Call(Var("K"), [])))
+        for _ in range(rnd.randint(1, 2)):
+            mod.append(ExprSt(Invoke(Var("k"), "go", [Num(rnd.choice([1, 2]))])))
+    else:
+        mod.append(Fn(top, [tp], Block(level(1, modvars + [tp], "fn"))))
+        for _ in range(rnd.randint(1, 2)):
+            mod.append(ExprSt(Call(Var(top), [Num(rnd.choice([1, 2]))])))
+    # run every closure, twice, interleaved with a write through the module variable
+    i = fresh("i")
+    for rounds in range(2):
+        c = fresh("c")
+        mod.append(For(c, Var("cl"), Block([
+            Try(Block([ExprSt(Call(Var(c), []))]), [Catch(fresh("e"), "Error", Block([ExprSt(Call(Var(c), [Num(3)]))]))])])))
+        for mv in modvars:
+            mod.append(ExprSt(Assign(mv, Bin("+", Var(mv), Num(1000)))))
+    return Module(mod)
+
+
+# ======================================================================================================
+# C03: classes
+def program_c03(rnd):
+    n = [0]
+
+    def fresh(p):
+        n[0] += 1
+        return f"{p}{n[0]}"
+
+    FIELDS = ["x", "y", "z"]
+    names = ["A", "B", "C"][:rnd.randint(1, 3)]
+    supers = {}
+    info = {}          # class -> dict(fields, methods set, init_arity, statics)
+    mod = []
+    for idx, cname in enumerate(names):
+        sup = None
+        if idx > 0 and rnd.random() < 0.8:
+            sup = rnd.choice(names[:idx])
+        supers[cname] = sup
+        inherited = dict(info[sup]) if sup else dict(fields=[], methods=set(), init_arity=None, statics=set())
+        members = []
+        fields = list(inherited["fields"])
+        init_arity = inherited["init_arity"]
+        if rnd.random() < 0.75:
+            ar = rnd.randint(0, 2)
+            ps = [fresh("p") for _ in range(ar)]
+            body = []
+            if sup and info[sup]["init_arity"] is not None and rnd.random() < 0.6:
+                body.append(ExprSt(SuperInvoke("init", [Num(rnd.choice([1, 2])) for _ in range(info[sup]["init_arity"])])))
+            assigned = []
+            fl = FIELDS[:]
+            rnd.shuffle(fl)
+            for f in fl[:rnd.randint(0, 3)]:
+                val = Var(rnd.choice(ps)) if ps and rnd.random() < 0.6 else Num(rnd.choice([0, 1, 5]))
+                st = ExprSt(PropSet(Self(), f, val))
+                if rnd.random() < 0.2:
+                    st = If(Bool(rnd.random() < 0.5), Block([st]))
+                body.append(st)
+                assigned.append(f)
+                if rnd.random() < 0.2:
+                    body.append(ExprSt(PropOp(Self(), f, "+=", Num(1))) if not isinstance(val, dict) or True else None)
+            if rnd.random() < 0.15:
+                # a field holding a callable named like a method
+                body.append(ExprSt(PropSet(Self(), "m", Lambda([], Str("field-" + cname)))))
+                assigned.append("m")
+            members.append(Fn("init", ps, Block(body), "init"))
+            for f in assigned:
+                if f not in fields:
+                    fields.append(f)
+            init_arity = ar
+        methods = set(inherited["methods"])
+        for mname in ["m", "n"]:
+            if rnd.random() < 0.6:
+                body = [Print(Str(f"{cname}.{mname}"))]
+                if fields and rnd.random() < 0.7:
+                    body.append(Print(*[Prop(Self(), f) for f in fields if f != "m"][:2] or [Nil()]))
+                if mname in inherited["methods"] and rnd.random() < 0.6:
+                    body.append(Print(Str("super->"), SuperInvoke(mname, [])))
+                if mname == "m" and ("n" in methods or "n" in inherited["methods"]) and rnd.random() < 0.4:
+                    body.append(Print(Str("self.n->"), Invoke(Self(), "n", [])))
+                body.append(Return(Str(f"r{cname}{mname}")))
+                members.append(Fn(mname, [], Block(body), "method"))
+                methods.add(mname)
+        statics = set()
+        if rnd.random() < 0.3:
+            members.append(Fn("s", ["q"], Block([Return(Bin("+", Var("q"), Num(1)))]), "static"))
+            statics.add("s")
+        info[cname] = dict(fields=fields, methods=methods, init_arity=init_arity, statics=statics)
+        mod.append(Class(cname, Var(sup) if sup else None, members))
+
+    def new(cname):
+        ar = info[cname]["init_arity"]
+        return Call(Var(cname), [Num(rnd.choice([1, 2, 3])) for _ in range(ar or 0)])
+
+    def guarded(stmts):
+        e = fresh("e")
+        return Try(Block(stmts), [Catch(e, "Error", Block([Print(Str("error"))]))])
+
+    # call sites executed with a sequence of receiver classes
+    mod.append(Fn("site", ["o"], Block([
+        guarded([Print(Str("invoke m"), Invoke(Var("o"), "m", []))]),
+        guarded([Let("bm", Prop(Var("o"), "n")), Print(Str("bound n"), Call(Var("bm"), []))]),
+        guarded([Print(Str("x"), Prop(Var("o"), "x"))]),
+        guarded([ExprSt(PropSet(Var("o"), "x", Num(9))), ExprSt(PropOp(Var("o"), "x", "+=", Num(1))), Print(Str("x'"), Prop(Var("o"), "x"))]),
+        guarded([Print(Str("zz"), Prop(Var("o"), "zz"))]),
+        guarded([ExprSt(PropSet(Var("o"), "zz", Num(1)))]),
+        guarded([ExprSt(Invoke(Var("o"), "zz", []))]),
+    ])))
+    seq = [rnd.choice(names) for _ in range(rnd.randint(2, 4))]
+    objs = []
+    for c in seq:
+        o = fresh("o")
+        mod.append(guarded([Let(o, new(c)), ExprSt(Call(Var("site"), [Var(o)])), ExprSt(Call(Var("site"), [Var(o)]))]))
+    for c in names:
+        if "s" in info[c]["statics"]:
+            mod.append(Print(Invoke(Var(c), "s", [Num(1)])))
+            mod.append(guarded([Print(Invoke(new(c), "s", [Num(1)]))]))
+    # an instance held in a field of another class with a different layout: writes through self.<field>.<name>
+    holder_fields = rnd.sample(FIELDS, 2)
+    inner_cls = rnd.choice(names)
+    inner_fields = [f for f in info[inner_cls]["fields"] if f != "m"]
+    if inner_fields:
+        tgt = rnd.choice(inner_fields)
+        hinit = [ExprSt(PropSet(Self(), holder_fields[0], Num(100))), ExprSt(PropSet(Self(), "part", new(inner_cls))),
+                 ExprSt(PropSet(Self(), holder_fields[1], Num(200)))]
+        if rnd.random() < 0.5:
+            hinit.append(ExprSt(PropSet(Prop(Self(), "part"), tgt, Num(33))))
+        upd = [ExprSt(PropSet(Prop(Self(), "part"), tgt, Var("v"))), ExprSt(PropOp(Prop(Self(), "part"), tgt, "+=", Num(1))),
+               Print(Str("holder"), Prop(Self(), holder_fields[0]), Prop(Self(), holder_fields[1]), Prop(Prop(Self(), "part"), tgt))]
+        mod.append(Class("Holder", None, [Fn("init", [], Block(hinit), "init"), Fn("update", ["v"], Block(upd), "method")]))
+        mod.append(guarded([Let("hd", Call(Var("Holder"), [])), ExprSt(Invoke(Var("hd"), "update", [Num(42)])),
+                            Print(*[Prop(Prop(Var("hd"), "part"), f) for f in inner_fields]),
+                            ExprSt(Invoke(Var("hd"), "update", [Num(7)]))]))
+    # a class declaration evaluated several times with different superclasses (super site sees several classes)
+    with_m = [c for c in names if "m" in info[c]["methods"] and info[c]["init_arity"] in (None, 0)]
+    if len(with_m) >= 1:
+        mod.append(Fn("mixin", ["Base"], Block([
+            Class("Loud", Var("Base"), [Fn("m", [], Block([Return(Bin("+", Str("loud:"), SuperInvoke("m", [])))]), "method")]),
+            Return(Var("Loud"))])))
+        order = [rnd.choice(with_m) for _ in range(3)]
+        for c in order:
+            mod.append(guarded([Print(Str("mixin " + c), Invoke(Call(Call(Var("mixin"), [Var(c)]), []), "m", []))]))
+    # an initialiser that captures self
+    mod.append(Class("Cap", None, [Fn("init", [], Block([ExprSt(PropSet(Self(), "v", Num(1))), ExprSt(PropSet(Self(), "get", Lambda([], Prop(Self(), "v"))))]), "init")]))
+    mod.append(guarded([Let("cp", Call(Var("Cap"), [])), ExprSt(PropSet(Var("cp"), "v", Num(8))), Print(Str("cap"), Invoke(Var("cp"), "get", []), Prop(Var("cp"), "v"))]))
+    # a bound method outlives its variable and stays bound to its receiver
+    c = rnd.choice(names)
+    if "m" in info[c]["methods"]:
+        mod.append(guarded([Let("keep", Prop(new(c), "m")), Print(Str("kept"), Call(Var("keep"), []))]))
+    return Module(mod)
+
+
+# ======================================================================================================
+# C04: exceptions
+ERRS = ["Error", "RuntimeError", "TypeError", "IndexError"]
+
+
+def program_c04(rnd):
+    n = [0]
+
+    def fresh(p):
+        n[0] += 1
+        return f"{p}{n[0]}"
+
+    mod = []
+    # user error classes
+    mod.append(Class("MyErr", Var("Error"), []))
+    mod.append(Class("SubErr", Var("MyErr"), []))
+    mod.append(Class("OtherErr", Var("Error"), []))
+    classes = ERRS + ["MyErr", "SubErr", "OtherErr"]
+
+    def error_source(depth):
+        """an expression statement that raises, `depth` calls below"""
+        c = rnd.random()
+        if c < 0.45:
+            cls = rnd.choice(classes)
+            st = Raise(Call(Var(cls), [Str("m-" + cls)]))
+        elif c < 0.65:
+            st = ExprSt(Bin("+", Nil(), Num(1)))
+        elif c < 0.80:
+            st = ExprSt(Index(List([Num(1)]), Num(5)))
+        elif c < 0.90:
+            st = ExprSt(Call(Num(3), []))
+        else:
+            st = ExprSt(Prop(Nil(), "nope"))
+        for d in range(depth):
+            f = fresh("thrower")
+            mod.append(Fn(f, [], Block([Print(Str("in " + f)), st, Print(Str("unreachable"))])))
+            st = ExprSt(Call(Var(f), []))
+        return st
+
+    def try_block(level, vars_in_scope, in_loop, in_fn):
+        body = []
+        loc = fresh("t")
+        body.append(Let(loc, Num(rnd.choice([1, 2]))))
+        c = rnd.random()
+        if level < 2 and c < 0.3:
+            body += try_block(level + 1, vars_in_scope + [loc], in_loop, in_fn)
+        exit_kind = rnd.choice(["fall", "raise", "raise", "raise", "break", "continue", "return"])
+        if exit_kind == "raise":
+            body.append(error_source(rnd.randint(0, 2)))
+        elif exit_kind in ("break", "continue") and in_loop:
+            body.append(Break() if exit_kind == "break" else Continue())
+        elif exit_kind == "return" and in_fn:
+            c2 = rnd.random()
+            if c2 < 0.4:
+                body.append(Return(Num(77)))
+            elif c2 < 0.6:
+                body.append(Return(Bin("+", Nil(), Num(1))))           # the returned expression itself raises
+            elif c2 < 0.8:
+                body.append(Return(Index(List([Num(1)]), Num(3))))
+            else:
+                f = fresh("rthrower")
+                mod.append(Fn(f, [], Block([Raise(Call(Var(rnd.choice(classes)), [Str("from " + f)]))])))
+                body.append(Return(Call(Var(f), [])))
+        catches = []
+        kinds = rnd.choice([[None], ["Error"], [rnd.choice(classes)], [rnd.choice(classes), rnd.choice(classes)], ["OtherErr"], ["SubErr", "MyErr"]])
+        for cls in kinds:
+            e = fresh("e")
+            cb = [Print(Str("caught " + (cls or "any")), Prop(Var(e), "message"))] + [Print(*[Var(v) for v in vars_in_scope])] if vars_in_scope else [Print(Str("caught " + (cls or "any")))]
+            if rnd.random() < 0.2:
+                cb.append(Raise(Call(Var("OtherErr"), [Str("from catch")])))
+            catches.append(Catch(e, cls, Block(cb)))
+        after = fresh("n")
+        return [Try(Block(body), catches), Let(after, Str("new")), Print(Str("after"), Var(after), *[Var(v) for v in vars_in_scope])]
+
+    placement = rnd.choice(["module", "fn", "fn", "method", "loop", "callback"])
+    if placement == "module":
+        v = fresh("v")
+        mod.append(Let(v, Num(5)))
+        mod += try_block(0, [v], False, False)
+    elif placement in ("fn", "method", "callback"):
+        ps = [fresh("p") for _ in range(rnd.randint(0, 3))]
+        ls = [fresh("l") for _ in range(rnd.randint(0, 3))]
+        body = [Let(l, Num(10 + i)) for i, l in enumerate(ls)]
+        cap = fresh("cap")
+        body.append(Let(cap, Num(42)))
+        body.append(Let("getcap", Lambda([], Var(cap))))
+        inner = try_block(0, ps + ls, False, True)
+        if rnd.random() < 0.4:
+            w = fresh("w")
+            inner = [Let(w, Num(0)), While(Bin("<", Var(w), Num(2)), Block([ExprSt(Assign(w, Bin("+", Var(w), Num(1))))] + try_block(0, ps + ls + [w], True, True)))]
+        body += inner
+        body.append(Print(Str("cap"), Call(Var("getcap"), [])))
+        body.append(Return(Num(1)))
+        args = [Num(i + 1) for i in range(len(ps))]
+        if placement == "fn":
+            mod.append(Fn("host", ps, Block(body)))
+            mod.append(Print(Str("result"), Call(Var("host"), args)))
+        elif placement == "method":
+            mod.append(Class("H", None, [Fn("run", ps, Block(body), "method")]))
+            mod.append(Print(Str("result"), Invoke(Call(Var("H"), []), "run", args)))
+        else:
+            mod.append(Fn("host", ps, Block(body)))
+            # called from inside another try, two frames up
+            mod.append(Fn("outer", [], Block([Print(Str("result"), Call(Var("host"), args))])))
+            mod.append(Try(Block([ExprSt(Call(Var("outer"), []))]), [Catch("oe", "Error", Block([Print(Str("outer caught"), Prop(Var("oe"), "message"))]))]))
+    else:
+        w = fresh("w")
+        mod.append(Let(w, Num(0)))
+        mod.append(While(Bin("<", Var(w), Num(3)), Block([ExprSt(Assign(w, Bin("+", Var(w), Num(1))))] + try_block(0, [w], True, False))))
+    # the old handler must be gone: raise again at the end, caught by nothing or by a fresh handler
+    if rnd.random() < 0.5:
+        mod.append(Try(Block([Raise(Call(Var("Error"), [Str("late")]))]), [Catch("le", "Error", Block([Print(Str("late caught"), Prop(Var("le"), "message"))]))]))
+    else:
+        mod.append(Raise(Call(Var(rnd.choice(classes)), [Str("final")])))
+    return Module(mod)
+
+
+# ======================================================================================================
+# C01 systematic sub-families
+def special_atoms():
+    return [("nil", Nil()), ("true", Bool(True)), ("false", Bool(False)), ("0", Num(0)), ("1", Num(1)), ("2", Num(2)),
+            ("-1", Num(-1)), ("nan", Bin("/", Num(0), Num(0))), ("inf", Bin("/", Num(1), Num(0))),
+            ("-inf", Bin("/", Num(-1), Num(0))), ("-0", Bin("*", Num(0), Num(-1))), ('""', Str("")), ('"a"', Str("a")),
+            ('"b"', Str("b")), ('"ab"', Str("ab")), ("[1]", List([Num(1)])), ("fn", Lambda([], Num(1)))]
+
+
+BINOPS = ["+", "-", "*", "/", "<", "<=", ">", ">=", "==", "!="]
+
+
+def guarded_print(e, k):
+    return Try(Block([Print(Str(f"#{k}"), e)]), [Catch(f"e{k}", "Error", Block([Print(Str(f"#{k} error"))]))])
+
+
+def operator_table_programs(per_program=40):
+    """exhaustive: every binary operator (and && ||, unary - !) over every pair of special atoms"""
+    import copy
+    atoms = special_atoms()
+    exprs = []
+    for op in BINOPS:
+        for _, a in atoms:
+            for _, b in atoms:
+                exprs.append(Bin(op, copy.deepcopy(a), copy.deepcopy(b)))
+    for _, a in atoms:
+        exprs.append(Un("-", copy.deepcopy(a)))
+        exprs.append(Un("!", copy.deepcopy(a)))
+        for _, b in atoms[:8]:
+            exprs.append(And(copy.deepcopy(a), copy.deepcopy(b)))
+            exprs.append(Or(copy.deepcopy(a), copy.deepcopy(b)))
+            exprs.append(Tern(copy.deepcopy(a), copy.deepcopy(b), Num(9)))
+    progs = []
+    for i in range(0, len(exprs), per_program):
+        progs.append(Module([guarded_print(e, k) for k, e in enumerate(exprs[i:i + per_program])]))
+    return progs
+
+
+def parse_chain(tokens):
+    """precedence climbing over [atom, op, atom, op, ...] with the documented table (all left associative);
+    builds the AST an unparenthesised source text must mean"""
+    prec = dict(PREC)
+    prec["&&"] = prec["and"]
+    prec["||"] = prec["or"]
+    pos = [0]
+
+    def atom():
+        a = tokens[pos[0]]
+        pos[0] += 1
+        return a
+
+    def climb(minp):
+        left = atom()
+        while pos[0] < len(tokens) and prec[tokens[pos[0]]] >= minp:
+            op = tokens[pos[0]]
+            pos[0] += 1
+            right = climb(prec[op] + 1)
+            left = And(left, right) if op == "&&" else Or(left, right) if op == "||" else Bin(op, left, right)
+        return left
+
+    return climb(0)
+
+
+def precedence_programs(rnd, n_chains, per_program=30):
+    """unparenthesised operator chains a op b op c (op d): all ordered operator pairs plus random longer chains"""
+    import copy
+    ops = BINOPS + ["&&", "||"]
+    pools = [[Num(1), Num(2), Num(3), Num(0), Num(7)], [Bool(True), Bool(False), Nil(), Num(0), Num(1)],
+             [Num(2), Bool(False), Num(3), Nil(), Bool(True)], [Str("a"), Str("b"), Str("ab"), Str(""), Str("a")]]
+    chains = []
+    for o1 in ops:
+        for o2 in ops:
+            for pool in pools[:3]:
+                chains.append([copy.deepcopy(pool[0]), o1, copy.deepcopy(pool[1]), o2, copy.deepcopy(pool[2])])
+    for _ in range(n_chains):
+        k = rnd.randint(3, 5)
+        pool = rnd.choice(pools)
+        toks = []
+        for i in range(k):
+            toks.append(copy.deepcopy(rnd.choice(pool)))
+            if i < k - 1:
+                toks.append(rnd.choice(ops))
+        chains.append(toks)
+    progs = []
+    for i in range(0, len(chains), per_program):
+        progs.append(Module([guarded_print(parse_chain(c), k) for k, c in enumerate(chains[i:i + per_program])]))
+    return progs
